@@ -26,7 +26,19 @@ def label(draw):
 
 
 cell_leaf = label().map(lambda l: ['cell', l])
-range_leaf = st.tuples(label(), label()).map(lambda t: ['range', t[0], t[1]])
+@st.composite
+def one_line_range(draw):
+    col, row = draw(cols), draw(rows)
+    if draw(st.booleans()):
+        a = ('$' if draw(st.booleans()) else '') + col + ('$' if draw(st.booleans()) else '') + str(row)
+        b = ('$' if draw(st.booleans()) else '') + draw(cols) + ('$' if draw(st.booleans()) else '') + str(row)
+    else:
+        a = ('$' if draw(st.booleans()) else '') + col + ('$' if draw(st.booleans()) else '') + str(row)
+        b = ('$' if draw(st.booleans()) else '') + col + ('$' if draw(st.booleans()) else '') + str(draw(rows))
+    return ['range', a, b]
+
+
+range_leaf = st.one_of(st.tuples(label(), label()).map(lambda t: ['range', t[0], t[1]]), one_line_range())
 var_leaf = st.sampled_from(['v_a', 'v_b', 'v_list', 'TRUE', 'FALSE', 'NULL', 'v_unreg', 'v_zero']).map(lambda n: ['var', n])
 num_leaf = st.sampled_from(['1', '2', '5']).map(lambda s: ['num', s])
 leaf = st.one_of(cell_leaf, cell_leaf, range_leaf, var_leaf, num_leaf)
@@ -93,7 +105,10 @@ def expected(tree, L):
             a, b = rc.parse_label(n[1]), rc.parse_label(n[2])
             r0, r1 = min(a[0], b[0]), max(a[0], b[0])
             c0, c1 = min(a[1], b[1]), max(a[1], b[1])
-            events.append(('callRangeValue', r0, c0, r1, c1))
+            written = None
+            if a[0] <= b[0] and a[1] <= b[1]:
+                written = (n[1].upper(), n[2].upper())      # already top-left:bottom-right: nothing to normalise
+            events.append(('callRangeValue', r0, c0, r1, c1, written))
             return final_value(L['callRangeValue'], [r0, c0, r1, c1], None)
         if k == 'var':
             name = n[1]
@@ -208,7 +223,7 @@ def check(case):
                 setter(None if t is None else (cell_tag(cell.row.index, cell.col.index) if t == 'tag' else CONSTS[t]))
 
         def range_l(start, end, setter):
-            log.append((idx, kind, start.row.index, start.col.index, end.row.index, end.col.index))
+            log.append((idx, kind, start.row.index, start.col.index, end.row.index, end.col.index, (start.label, end.label)))
             for c, nm in ((start, 'start'), (end, 'end')):
                 p = rc.parse_label(c.label) if isinstance(c.label, str) else None
                 if p is None or p != (c.row.index, c.col.index, c.row.is_absolute, c.col.is_absolute):
@@ -247,6 +262,14 @@ def check(case):
     if len(log) != len(want_log):
         raise Violation(d + '%d listener calls, expected %d: %r vs %r' % (len(log), len(want_log), log[:8], want_log[:8]), enc(log[:12]), enc(want_log[:12]))
     for i, (g, w) in enumerate(zip(log, want_log)):
+        if g[1] == 'callRangeValue':
+            # labels: asserted only when the corners were written in order (then the cells are the written ones)
+            if w[6] is None:
+                g, w = g[:6], w[:6]
+            elif tuple(g[6]) != tuple(w[6]):
+                raise Violation(d + 'the range was written top-left:bottom-right as %s:%s but its cells are delivered as %s:%s' % (w[6][0], w[6][1], g[6][0], g[6][1]), list(g[6]), list(w[6]))
+            else:
+                g, w = g[:6], w[:6]
         ok = g[:3] == w[:3] and (same_value(list(g[3:]), list(w[3:])))
         if not ok:
             raise Violation(d + 'listener call %d is %r, expected %r' % (i, g, w), enc(list(g)), enc(list(w)))
@@ -273,6 +296,8 @@ def classes(case):
                 out.add('range-reversed')
             if a[0] > b[0] and a[1] < b[1] or a[0] < b[0] and a[1] > b[1]:
                 out.add('range-anti-diagonal')
+            if (a[0] == b[0] or a[1] == b[1]) and ('$' in n[1]) != ('$' in n[2]):
+                out.add('range-one-line-mixed-markers')
             if '$' in n[1] + n[2]:
                 out.add('range-absolute')
         if n[0] == 'call' and n[1] in ('ERAISE', 'SUM'):
@@ -320,7 +345,7 @@ def key(case):
 LAWS = [
     Law('events', check, strategy=case_s(), classes=classes, key=key, quick=5000, thorough=200000, shards=(16, 16),
         required=('range-reversed', 'range-anti-diagonal', 'range-absolute', 'cell-lower', 'cell-absolute', 'beyond-xfd-or-1048576', 'multi-listener',
-                  'falsy-final:callCellValue', 'falsy-final:callRangeValue', 'falsy-final:callVariable', 'falsy-final:callFunction', 'none-after-value', 'events>=3-of-2-kinds', 'call-raises-error'),
+                  'falsy-final:callCellValue', 'falsy-final:callRangeValue', 'falsy-final:callVariable', 'falsy-final:callFunction', 'none-after-value', 'events>=3-of-2-kinds', 'call-raises-error', 'range-one-line-mixed-markers'),
         nontrivial=lambda c: bool(set(classes(c)) & set(['events>=3-of-2-kinds', 'range-reversed'])) or any(x.startswith('falsy-final') for x in classes(c)),
         rule='generated tree of cell / range / variable references, recording and built-in calls (incl. a host function and an aggregate that report an error by raising it), array literals and = comparisons; 0-3 listeners per event kind, each handing 0-3 values (None, a tag derived from the reference, or a constant incl. 0, FALSE, "", a list) to the setter: '
              'the listener call log equals the post-order walk (each listener once per event, subscription order) with canonical payloads (upper-cased label, zero-based row/column, markers; normalised range corners whose labels re-parse to their coordinates); '
